@@ -26,7 +26,7 @@ Section Disc.
   Hypothesis Hundo : f_undo (c_filter cfg) = true.
   Hypothesis Hhold : c_hold cfg = true.
 
-  Hypothesis U_id : forall b, In b U -> bid b <> 0 /\ bparent b <> 0 /\ bid b <> bparent b.
+  Hypothesis U_id : forall b, In b U -> bid b <> 0 /\ bid b <> bparent b.
   Hypothesis U_uniq : forall x y, In x U -> In y U -> bid x = bid y -> x = y.
   Hypothesis U_up : forall x y, In x U -> In y U -> bparent x = bid y -> bnum y < bnum x.
   Hypothesis D_lib : forall b, In b U -> blib b = n0.
@@ -80,7 +80,7 @@ Section Disc.
           end
      else ScssOk [] [] None) = ScssOk [] [] None.
   Proof.
-    intros HP Hb. destruct (U_id b Hb) as (H1 & H2 & H3).
+    intros HP Hb. destruct (U_id b Hb) as (H1 & H3).
     rewrite (p_ls s HP), (p_nolib s HP). cbn [ref_empty ri rn].
     split; [apply N.eqb_neq; exact H3|]. split; [rewrite andb_false_r; reflexivity|].
     split.
@@ -93,7 +93,23 @@ Section Disc.
   Proof.
     intros HP Hb Hf. destruct (pre_guards s b HP Hb) as (G1 & G2 & G3 & G4).
     unfold fk_step. rewrite G1, G2, G3, G4.
-    rewrite (add_link_old U U_id U_uniq _ _ _ (p_inU s HP) Hb Hf). reflexivity.
+    destruct (N.eq_dec (bparent b) 0) as [E0|E0].
+    - (* a stored root is stored again, unchanged; SetLIB finds nothing again; hold *)
+      pose proof (find_some _ _ _ Hf) as [Hin _].
+      pose proof (stored_is_self U U_uniq _ _ _ (p_inU s HP) Hb Hf) as Eb.
+      rewrite (add_link_root U U_id U_uniq _ _ _ (p_nodup s HP) (p_inU s HP) Hb Hf E0 (p_unsent s HP e Hin)).
+      assert (Hs : with_db s (db s) = s) by (destruct s; reflexivity). rewrite Hs.
+      assert (Hhl : has_lib (db s) = false) by (unfold has_lib; rewrite (p_nolib s HP); reflexivity).
+      rewrite Hhl.
+      pose proof (p_above s HP e Hin) as Hab. rewrite Eb in Hab.
+      assert (Hset : set_lib (db s) first (bref b) (blib b) = Some (db s)).
+      { unfold set_lib. cbn [bref rn ri].
+        destruct (N.eqb_spec (bnum b) first) as [E|E]; [pose proof (D_first b Hb E); lia|].
+        unfold block_in_chain, bref. cbn [rn ri]. rewrite (D_lib b Hb).
+        destruct (N.eqb_spec (bnum b) n0); [lia|].
+        rewrite (bic_pre (db s) (pre_wf s HP) (p_extra s HP) (p_above s HP)); [reflexivity | apply enough_fuel_of]. }
+      rewrite Hset, Hs, Hhl, Hhold. reflexivity.
+    - rewrite (add_link_old U U_id U_uniq _ _ _ (p_inU s HP) Hb Hf E0). reflexivity.
   Qed.
 
   Lemma no_lib_new s b : Pre s -> has_lib (new_db (db s) b) = false.
@@ -150,7 +166,7 @@ Section Disc.
       (s', evs, if ok then ROk else RHandlerErr).
   Proof.
     intros HP Hb Hf Heq. destruct (pre_guards s b HP Hb) as (G1 & G2 & G3 & G4).
-    destruct (U_id b Hb) as (H1 & H2 & H3).
+    destruct (U_id b Hb) as (H1 & H3).
     unfold fk_step. rewrite G1, G2, G3, G4.
     rewrite (add_link_new U U_id _ _ Hb Hf). rewrite (no_lib_new s b HP).
     set (d1 := new_db (db s) b).
